@@ -80,4 +80,11 @@ def ev(e: ast.AST, env: Dict[str, Any], call: Optional[Callable] = None):
         r = call(e, env)
         if r is not NotImplemented:
             return r
+    if isinstance(e, ast.Call) and isinstance(e.func, ast.Name) and \
+            e.func.id in ('max', 'min', 'abs') and e.args and not e.keywords:
+        vals = [ev(a, env, call) for a in e.args]
+        if e.func.id == 'abs' and len(vals) == 1:
+            return abs(vals[0])
+        if len(vals) >= 2:
+            return max(vals) if e.func.id == 'max' else min(vals)
     raise CannotEval(s)
